@@ -133,6 +133,18 @@ func generateGrid(family string, n int, r *rng, p func(string, ...any)) bool {
 				p("enc uh {i64:7=cs(%s;01)}", h)
 				p("enc uh {i64:11=csl[cs(%s;01),cs(%s;01)]}", ok, h)
 			}
+			// zero-length, non-nil retained raw buckets are "no retained bytes"
+			for _, h := range []string{"H(_;{i64:1=a:-7};_;{i64:4=b:31})", "H(_;{i64:1=a:-7};-;{})", "H(-;{i64:1=a:-7};_;{i64:4=b:31})", "H(_;{};_;{})"} {
+				p("enc s1 S1(%s;00;01)", h)
+				p("enc s1u S1(%s;00;01)", h)
+				p("enc sm SM(%s;00;[cs(%s;01)])", h, h)
+				p("enc sig cs(%s;01)", h)
+				p("enc csig cs(%s;01)", h)
+				p("enc uh {i64:11=cs(%s;01)}", h)
+				p("s1 t S1(%s;00;-) 01 T:-7:1 T:-7:1 a", h)
+				p("sm SM(%s;00;[cs(%s;-)]) 01 [T:-7:1] [T:-7:1] a", h, h)
+				p("cs full s1 p val:S1(%s;00;01) %s 01 T:-7:1 T:-7:1", h, h)
+			}
 			// unset (nil) signature slots never encode
 			p("enc sm SM(%s;00;[csn])", ok)
 			p("enc sm SM(%s;00;[cs(%s;01),csn])", ok, ok)
@@ -644,8 +656,55 @@ func genTagGrid(p func(string, ...any)) {
 	}
 }
 
+// an integer label and the text label that spells the same digits are two different labels: a
+// bucket holding both is conforming, in every layer
+func genIntTextGrid(p func(string, ...any)) {
+	payload := []byte{0x50}
+	for _, n := range []int64{1, 4, -1, 99, -70001, 33} {
+		txt := wTstr(fmt.Sprint(n))
+		var intv *W = wInt(7)
+		if n == 1 {
+			intv = wInt(-7)
+		} else if n == 4 {
+			intv = wBstr([]byte{0x31})
+		}
+		protItems := []*W{wInt(1), wInt(-7), txt, wInt(42)}
+		if n != 1 {
+			protItems = append(protItems, wInt(n), intv)
+		}
+		content := wMap(protItems...).enc()
+		um := wMap(txt.clone(), wBool(true), wInt(n+1000), wInt(1), wTstr(fmt.Sprint(n+1000)), wInt(2))
+		sig := tsig(1, refTBS1(content, []byte{}, payload))
+		msg := wArr(wBstr(content), um, wBstr(payload), wBstr(sig))
+		p("v1 t %s - T:-7:1 - !wf", hexs(wTag(18, msg).enc()))
+		p("dec ph %s", hexs(wBstr(content).enc()))
+		p("dec uh %s", hexs(um.enc()))
+		// in a signer slot of a COSE_Sign and in a nested countersignature
+		sg := wArr(wBstr(content), um.clone(), wBstr(tsig(1, refTBSSig([]byte{}, content, []byte{}, payload))))
+		sg.Fixed = true
+		p("vm %s - [T:-7:1] - !wf", hexs(wTag(98, wArr(wBstr([]byte{}), wMap(), wBstr(payload), wArr(sg))).enc()))
+		cs := wArr(wBstr(content), um.clone(), wBstr([]byte{9}))
+		cs.Fixed = true
+		p("dec s1 %s", hexs(wTag(18, wArr(wBstr(wMap(wInt(1), wInt(-7)).enc()), wMap(wInt(11), cs), wBstr(payload), wBstr([]byte{1}))).enc()))
+		// crit naming the text label while only the integer label is present, and vice versa: refused
+		for _, c := range []*W{wArr(txt.clone()), wArr(wInt(n))} {
+			for _, present := range []*W{txt.clone(), wInt(n)} {
+				if n == 1 && present.M != 3 {
+					continue
+				}
+				items := []*W{wInt(2), c, present, wInt(5)}
+				if !(present.M != 3 && n == 1) {
+					items = append(items, wInt(1), wInt(-7))
+				}
+				p("dec ph %s", hexs(wBstr(wMap(items...).enc()).enc()))
+			}
+		}
+	}
+}
+
 func genTbsGrid(p func(string, ...any)) {
 	genTagGrid(p)
+	genIntTextGrid(p)
 	targets := []int{0, 1, 22, 23, 24, 25, 254, 255, 256, 257, 65535, 65536}
 	widths := []int{-1, 1, 2, 4, 8}
 	payload := []byte{0x50}
@@ -802,6 +861,14 @@ func genEncGrid(p func(string, ...any)) {
 		p("s1 t S1(H(-;%s;-;%s);00;-) 01 T:-7:1 T:-7:1 a", m, m)
 		p("enc key K(1;-;-8;-;-;{i64:-1=c:6,i64:-2=b:%s,%s})", strings.Repeat("33", 32), strings.Join(parts, ","))
 	}
+	// parameters that name a common label (1..5) in every Go spelling, with the field also set:
+	// whatever the encoder decides, it decides it the same way on every call and emits no duplicate
+	for _, sp := range []string{"i64", "i", "i8", "i16", "i32", "u", "u8", "u16", "u32", "u64"} {
+		p("enc key K(4;01;0;-;-;{%s:2=b:05,i64:-1=b:0102})", sp)
+		p("enc key K(4;01;0;[1];02;{%s:5=b:05,s:78=i64:1,i64:-1=b:0102})", sp)
+		p("enc key K(4;-;0;-;-;{%s:1=i64:4,i64:-1=b:0102})", sp)
+		p("enc key K(4;-;-7;-;-;{%s:3=i64:-7,i64:-1=b:0102})", sp)
+	}
 	// EC2 keys whose coordinates were stripped of leading zero octets: the encoder pads them to the
 	// curve size (C14) without writing into the caller's slices (C18; the harness allocates every
 	// byte string with spare capacity)
@@ -811,6 +878,10 @@ func genEncGrid(p func(string, ...any)) {
 				x, y := strings.Repeat("5a", xl), strings.Repeat("a5", yl)
 				p("enc key K(2;-;0;-;-;{i64:-1=c:%d,i64:-2=b:%s,i64:-3=b:%s})", crv, x, y)
 				p("enc key K(2;01;0;-;-;{i64:-1=c:%d,i64:-2=b:%s,i64:-3=b:%s,i64:-4=b:%s})", crv, x, y, strings.Repeat("77", xl))
+				// the curve stored as a plain Go integer instead of cose.Curve: same key, same padding
+				for _, cs := range []string{"i64", "i", "i8", "u8"} {
+					p("enc key K(2;-;0;-;-;{i64:-1=%s:%d,i64:-2=b:%s,i64:-3=b:%s})", cs, crv, x, y)
+				}
 			}
 		}
 	}
